@@ -14,6 +14,23 @@ TABLES = ["DEFAULT", "STANDARD", "PROKARYOTE"]
 SEQTYPES = ["chromosome", "sequence_chunk", "contig", "region", "nonexistent"]
 
 
+# operations whose answer is an iterator (probed against the library; `./vcheck selftest reach` fails if a listed
+# operation never produced a cursor)
+ITER_OPS = {
+    "cds": {"blocks", "relative_blocks", "scan_chromosome_codon_locations", "scan_chunk_relative_codon_locations", "scan_codons",
+            "scan_codons(trunc)", "scan_codon_locations", "to_gff", "to_gff(parent,pq)"},
+    "transcript": {"blocks", "cds_blocks", "relative_blocks", "to_gff", "to_gff(parent,pq)"},
+    "feature": {"blocks", "relative_blocks", "to_gff", "to_gff(parent,pq)"},
+    "variant": {"blocks"},
+    "gene": {"iter_children", "to_gff", "to_gff(args)"},
+    "feature_collection": {"iter_children", "to_gff", "to_gff(args)"},
+    "variant_collection": {"iter_children"},
+    "collection": {"iter_children", "iter_non_variant_children", "to_gff", "to_gff(args)", "iter"},
+    "location": {"scan_blocks", "scan_windows"},
+    "sequence": {"iter"},
+}
+
+
 def E(t, n):
     return {"$": "enum", "t": t, "n": n}
 
@@ -653,6 +670,7 @@ def gen_plan(rng, check="C10", size=1, max_steps=60, known_avoid=()):
     focused = r0 < 0.30
     covering = 0.30 <= r0 < 0.52
     repeat_op = 0.52 <= r0 < 0.65
+    cursors = 0.65 <= r0 < 0.72
     if focused:
         nsess = rng.randint(1, 3)
         style = 1.0
@@ -678,13 +696,53 @@ def gen_plan(rng, check="C10", size=1, max_steps=60, known_avoid=()):
             sessions.append(steps)
         nsess = 0
         max_steps = max(max_steps, 110)
+    if cursors:
+        # cursor duel: two or three consumers iterate the same lazily answered question on one object, stepped
+        # alternately, with other questions to the same object in between
+        nsess = 0
+        cands = [n for n in roots if any(x in BY_NAME[pb.objects[n]["kind"]] for x in ITER_OPS.get(pb.objects[n]["kind"], ()))]
+        if cands:
+            target = rng.choice(cands)
+            kind = pb.objects[target]["kind"]
+            names = sorted(n for n in ITER_OPS[kind] if n in BY_NAME[kind])
+            base = None
+            for _ in range(6):
+                base = pb.call_step(0, target, BY_NAME[kind][rng.choice(names)], store_p=0.0)
+                if base:
+                    break
+            if base:
+                ncons = rng.choice([2, 2, 3])
+                opens = [dict(copy.deepcopy(base), s=i, lazy={"cur": f"duel{i}", "take": rng.choice([0, 1, 1, 2])}) for i in range(ncons)]
+                moves = []
+                for i in range(ncons):
+                    for take in [1] * rng.randint(0, 2) + [None]:
+                        moves.append(dict(copy.deepcopy(base), s=i, resume={"cur": f"duel{i}", "take": take}))
+                # keep every consumer's own order, interleave consumers at random
+                per = {i: [m for m in moves if m["s"] == i] for i in range(ncons)}
+                steps = list(opens)
+                rng.shuffle(steps)
+                while any(per.values()):
+                    i = rng.choice([k for k, v in per.items() if v])
+                    steps.append(per[i].pop(0))
+                    if rng.random() < 0.4:
+                        st = pb.call_step(ncons, target, _pick_op(rng, REGISTRY[kind]), store_p=0.0)
+                        if st:
+                            steps.append(st)
+                sessions.append(steps)
     if repeat_op:
         # the same question with different arguments, repeated: thrashes every argument-keyed memo / index
         nsess = 0
         for s in range(rng.randint(1, 2)):
             target = rng.choice(roots)
+            colls = [n for n in roots if pb.objects[n]["kind"] == "collection"]
+            if colls and rng.random() < 0.4:
+                target = rng.choice(colls)
             kind = pb.objects[target]["kind"]
             argops = [o for o in REGISTRY[kind] if o.args and "twin" not in o.args] or list(REGISTRY[kind])
+            queries = [o for o in argops if o.name.startswith("query_")]
+            if queries and rng.random() < 0.6:
+                # look-ups by identifier / guid / position: where lazily built indexes and argument-keyed memos live
+                argops = queries
             chosen = [_pick_op(rng, argops) for _ in range(rng.randint(1, 2))]
             steps = []
             for _ in range(rng.randint(5, 12)):
@@ -765,6 +823,12 @@ def gen_plan(rng, check="C10", size=1, max_steps=60, known_avoid=()):
     # cache on the second call has to survive it
     echo_p = rng.choice([0.0, 0.0, 0.08, 0.2, 0.45])
     late_echoes = []
+    # lazily consumed answers: operations that return an iterator are, with a per-plan probability, opened as a cursor
+    # (first 0-3 items taken), resumed once or twice further down the history (other sessions run in between) and
+    # drained at the end; every part must equal the same part of the answer drained alone in a pristine process
+    lazy_p = rng.choice([0.0, 0.5, 0.9])
+    pending = []  # resume steps waiting to be placed
+    ncur = 0
     # interleave
     order = []
     idx = [0] * len(sessions)
@@ -779,7 +843,29 @@ def gen_plan(rng, check="C10", size=1, max_steps=60, known_avoid=()):
                 order.append(sessions[i][idx[i]])
                 idx[i] += 1
                 remaining -= 1
-                if echo_p and order[-1].get("t") == "call" and rng.random() < echo_p:
+                last = order[-1]
+                if (lazy_p and last.get("t") == "call" and "store" not in last and "lazy" not in last and "resume" not in last and last["op"] in ITER_OPS.get(pb.objects[last["obj"]]["kind"], ())
+                        and rng.random() < lazy_p):
+                    cur = f"cur{ncur}"
+                    ncur += 1
+                    base = copy.deepcopy(last)
+                    last["lazy"] = {"cur": cur, "take": rng.choice([0, 1, 1, 2, 3])}
+                    if rng.random() < 0.5:
+                        # a second consumer asks the same question in full (or opens its own cursor) while the first is half way
+                        second = copy.deepcopy(base)
+                        if rng.random() < 0.4:
+                            cur2 = f"cur{ncur}"
+                            ncur += 1
+                            second["lazy"] = {"cur": cur2, "take": rng.choice([1, 2])}
+                            pending.append(second)
+                            pending.append(dict(copy.deepcopy(base), resume={"cur": cur2, "take": None}))
+                        else:
+                            pending.append(second)
+                    for take in ([rng.choice([1, 2, 4])] if rng.random() < 0.6 else []) + [None]:
+                        pending.append(dict(copy.deepcopy(base), resume={"cur": cur, "take": take}))
+                elif pending and rng.random() < 0.3:
+                    order.append(pending.pop(0))
+                if echo_p and order[-1].get("t") == "call" and "lazy" not in order[-1] and "resume" not in order[-1] and rng.random() < echo_p:
                     echo = copy.deepcopy({k: v for k, v in order[-1].items() if k != "store"})
                     if rng.random() < 0.5:
                         order.append(echo)
@@ -793,6 +879,7 @@ def gen_plan(rng, check="C10", size=1, max_steps=60, known_avoid=()):
                         order.append({"s": 9, "t": "gc"})
                     else:
                         order.append({"s": 9, "t": "touch", "obj": rng.choice(list(pb.objects))})
+    order.extend(pending[:30])
     order.extend(late_echoes[:40])
     # drop stored-object recipes whose defining step fell beyond max_steps, and steps that use them
     plan = {"check": check, "objects": pb.objects, "steps": order}
